@@ -269,6 +269,30 @@ def check_message(sh, fams, D, name, fam, h, exp_inner, dec, sender, ids):
             sock = rx._protocol if hasattr(rx, "_protocol") else rx._socket
             if len(sock.sent) != 1 or b"STATQ" not in sock.sent[0][0]:
                 sh.violation("C04:statq", f"{name}: acknowledgement datagrams {sock.sent}", w)
+            else:
+                # the acknowledgement is a message the library builds: layout, claim, decode
+                aw = sock.sent[0][0]
+                ai = aw[aw.find(b"<DATAS>") + 7 : aw.rfind(b"</DATAS>")]
+                aseq = sock.n
+                if ai != b"STATQ" + bytes([aseq]) or not aw.startswith(b"<PACKT><SRCCN>"):
+                    sh.violation("C04:layout:STATQ", f"acknowledgement {aw!r:.120} is not a framed STATQ + sequence byte {aseq}", w)
+                elif claimants(fams, ai, sender) != ["partial"]:
+                    sh.violation("C04:claim:STATQ", f"STATQ content claimed by {claimants(fams, ai, sender)}", w)
+                else:
+                    for acls in fams["partial"]:
+                        ax = new_handler(acls)
+                        try:
+                            if acls.__name__.startswith("GeckoAsyncPartial"):
+                                drive(ax.async_handle(ai, sender))
+                            else:
+                                ax.handle(ai, sender)
+                            okq = getattr(ax, "sequence", None) == aseq
+                        except Exception as e:
+                            okq = False
+                            w = dict(w, exc=describe_exc(e))
+                        sh.count("statq_decodes")
+                        if not okq:
+                            sh.violation("C04:roundtrip:STATQ", f"STATQ with sequence {aseq} decodes to sequence {getattr(ax, 'sequence', None)!r} on {acls.__name__}", w)
         else:
             ok = bool(dec(rx))
         if not ok:
